@@ -210,7 +210,7 @@ static void hist_case(ctx_t *c, long idx, rng_t *r) {
     int nun = rng_int(r, 2, 6); job_t un[6]; obuf_t uo[6]; memset(uo, 0, sizeof uo);
     for (int k = 0; k < nun; k++) job_gen(r, c->thorough, c->ty ? c->ty : "dszc"[rng_int(r, 0, 3)], -1, &un[k]);
     int split = rng_int(r, 1, nun - 1);
-    obuf_t o1, o2, o3; memset(&o1, 0, sizeof o1); memset(&o2, 0, sizeof o2); memset(&o3, 0, sizeof o3);
+    obuf_t o1, o2, o3, o4; memset(&o1, 0, sizeof o1); memset(&o2, 0, sizeof o2); memset(&o3, 0, sizeof o3); memset(&o4, 0, sizeof o4);
     { int anyilu = J.kind == JOB_GSISX; for (int k = 0; k < nun; k++) anyilu |= un[k].kind == JOB_GSISX;
       fprintf(stderr, "BEGIN %s %ld hist%s\n", c->family, idx, anyilu ? " has-ilu-job" : ""); fflush(stderr); }
     /* one work area for the whole history: clean (0xA5) for the first run of J, then whatever the
@@ -225,31 +225,35 @@ static void hist_case(ctx_t *c, long idx, rng_t *r) {
     led_poison(0x5A);
     for (int k = split; k < nun; k++) job_run(&un[k], &uo[k]);
     job_run(&J, &o3);
+    led_poison(0xFF);      /* fresh blocks of -1: what a never-written slot holds after the caller freed arrays of EMPTY markers */
+    job_run(&J, &o4);
     led_poison(-1);
     free(W);
     clear_tuning();
     out_case(c->out, c->family, idx);
-    out_p(c->out, "mode", "hist"); out_p(c->out, "threads", "1"); out_p(c->out, "jobs", "%d", 3 + nun);
+    out_p(c->out, "mode", "hist"); out_p(c->out, "threads", "1"); out_p(c->out, "jobs", "%d", 4 + nun);
     out_p(c->out, "userwork", "%d", J.userwork); out_p(c->out, "symm", "%d", J.symm);
     out_p(c->out, "tuned", "%d", tune[1] != 0);
     int kinds[1] = { J.kind }, tys[1] = { J.ty }, ns[1] = { J.n };
     int_t inf = -99; if (J.kind != JOB_PERM && J.kind != JOB_PIPE && o1.n >= sizeof inf) memcpy(&inf, o1.p, sizeof inf);
     int infos[1] = { (int)inf };
     out_ints(c->out, "kind", 1, kinds); out_ints(c->out, "jty", 1, tys); out_ints(c->out, "jn", 1, ns); out_ints(c->out, "info", 1, infos);
-    uint64_t h[3] = { ob_hash(&o1), ob_hash(&o2), ob_hash(&o3) };
-    int hr[2] = { (int)(h[0] >> 32), (int)(h[0] & 0xffffffffu) }, hg[4] = { (int)(h[1] >> 32), (int)(h[1] & 0xffffffffu), (int)(h[2] >> 32), (int)(h[2] & 0xffffffffu) };
-    int lr[1] = { (int)o1.n }, lg[2] = { (int)o2.n, (int)o3.n };
-    out_ints(c->out, "ref_hash", 2, hr); out_ints(c->out, "got_hash", 4, hg); out_ints(c->out, "ref_len", 1, lr); out_ints(c->out, "got_len", 2, lg);
+    uint64_t h[4] = { ob_hash(&o1), ob_hash(&o2), ob_hash(&o3), ob_hash(&o4) };
+    int hr[2] = { (int)(h[0] >> 32), (int)(h[0] & 0xffffffffu) }, hg[6] = { (int)(h[1] >> 32), (int)(h[1] & 0xffffffffu), (int)(h[2] >> 32), (int)(h[2] & 0xffffffffu), (int)(h[3] >> 32), (int)(h[3] & 0xffffffffu) };
+    int lr[1] = { (int)o1.n }, lg[3] = { (int)o2.n, (int)o3.n, (int)o4.n };
+    out_ints(c->out, "ref_hash", 2, hr); out_ints(c->out, "got_hash", 6, hg); out_ints(c->out, "ref_len", 1, lr); out_ints(c->out, "got_len", 3, lg);
     const char *sec = "?"; int ndiff = 0; char diffmsg[256] = "";
     long at = ob_diff(&o1, &o2, &sec);
     if (at >= 0) { ndiff++; snprintf(diffmsg, sizeof diffmsg, "repeat=2 (same poison) kind=%s ty=%c n=%d section=%s offset=%ld", job_names[J.kind], J.ty, J.n, sec, at); }
     at = ob_diff(&o1, &o3, &sec);
     if (at >= 0 && !ndiff++) snprintf(diffmsg, sizeof diffmsg, "repeat=3 (poison 0x5A instead of 0xA5: uninitialised memory reaches the output) kind=%s ty=%c n=%d section=%s offset=%ld", job_names[J.kind], J.ty, J.n, sec, at);
+    at = ob_diff(&o1, &o4, &sec);
+    if (at >= 0 && !ndiff++) snprintf(diffmsg, sizeof diffmsg, "repeat=4 (poison 0xFF instead of 0xA5: uninitialised memory reaches the output) kind=%s ty=%c n=%d section=%s offset=%ld", job_names[J.kind], J.ty, J.n, sec, at);
     out_p(c->out, "ndiff", "%d", ndiff);
     if (ndiff) fprintf(c->out, "s diff %s\n", diffmsg);
     out_p(c->out, "live_delta", "0"); out_p(c->out, "double_frees", "%ld", led_double_frees());
     out_end(c->out);
-    ob_free(&o1); ob_free(&o2); ob_free(&o3);
+    ob_free(&o1); ob_free(&o2); ob_free(&o3); ob_free(&o4);
     for (int k = 0; k < nun; k++) { ob_free(&uo[k]); job_free(&un[k]); }
     job_free(&J);
 }
